@@ -409,6 +409,37 @@ func verif_lemma_icmpecho_roundtrip(b []byte, t, code uint8, id, seq uint16, dat
 
 // ---------- NDP neighbour solicitation / advertisement ----------
 
+// ICMP6NeighborAdvertisementMarshal: a fresh 32-byte message, every byte determined.
+//
+//verif:props C03 C07
+func verif_contract_ICMP6NeighborAdvertisementMarshal(router, solicited, override bool, target Addr) []byte {
+	vRequires(target.IP.Is6() && len(target.MAC) >= 6)
+	vCanary()
+	b := ICMP6NeighborAdvertisementMarshal(router, solicited, override, target)
+	vEnsures(len(b) == 32 && vIsFreshRegion(b))
+	vEnsures(b[0] == 136 && b[1] == 0 && b[2] == 0 && b[3] == 0 && b[5] == 0 && b[6] == 0 && b[7] == 0)
+	vEnsures((b[4]&0x80 != 0) == router && (b[4]&0x40 != 0) == solicited && (b[4]&0x20 != 0) == override && b[4]&0x1f == 0)
+	vEnsures(spec_ip6_at(b, 8) == target.IP)
+	vEnsures(b[24] == 2 && b[25] == 1)
+	vEnsures(b[26] == target.MAC[0] && b[27] == target.MAC[1] && b[28] == target.MAC[2] && b[29] == target.MAC[3] && b[30] == target.MAC[4] && b[31] == target.MAC[5])
+	return b
+}
+
+// ICMP6NeighborSolicitationMarshal: a fresh 32-byte message, every byte determined.
+//
+//verif:props C03 C07
+func verif_contract_ICMP6NeighborSolicitationMarshal(target netip.Addr, sourceLLA net.HardwareAddr) ([]byte, error) {
+	vRequires(target.Is6() && len(sourceLLA) >= 6)
+	vCanary()
+	b, err := ICMP6NeighborSolicitationMarshal(target, sourceLLA)
+	vEnsures(err == nil && len(b) == 32 && vIsFreshRegion(b))
+	vEnsures(b[0] == 135 && b[1] == 0 && b[2] == 0 && b[3] == 0 && b[4] == 0 && b[5] == 0 && b[6] == 0 && b[7] == 0)
+	vEnsures(spec_ip6_at(b, 8) == target)
+	vEnsures(b[24] == 1 && b[25] == 1)
+	vEnsures(b[26] == sourceLLA[0] && b[27] == sourceLLA[1] && b[28] == sourceLLA[2] && b[29] == sourceLLA[3] && b[30] == sourceLLA[4] && b[31] == sourceLLA[5])
+	return b, err
+}
+
 //verif:props C03
 func verif_lemma_na_roundtrip(router, solicited, override bool, target Addr) {
 	vRequires(target.IP.Is6() && len(target.MAC) == 6)
